@@ -85,6 +85,16 @@ CHECKS = {
             'Trusts TLC and the interposition on vermouth.processors.do_links.match_link. Links are built as objects (grammar is '
             'C13). Not generated: self-modifying links, non-numeric non-edge partner orders, angle/dihedral effectors.',
             'DESIGN.md section 5 / C05'),
+    'C19': ('model_checking',
+            'TLA+ spec MutMod (specification parser as the implementation splits it, Format as its inverse with the law '
+            'Parse(Format(t)) = t; Matches / Marks / Unmatched / IsError as the statement words them) evaluated by TLC on '
+            'recorded calls of the real parse_residue_spec and AnnotateMutMod.run_system over an exhaustive small scope',
+            'Every specification string up to length 5 over {A,4,-,#} and every system of 1-2 molecules over a residue pool '
+            '(chains, insertion codes, names ending in digits, star and path residue graphs, non-protein residues) with ordered '
+            'request lists: marks on every atom, reported requests and error outcome must be exactly what the TLA+ operators give.',
+            'Trusts TLC and the log records as the report channel. The after-repair clause is checked by C04. Not generated: '
+            'nter/cter combined with a residue number; specifications whose number part is not /[0-9]+/.',
+            'DESIGN.md section 5 / C19'),
 }
 
 PENDING = {}
